@@ -304,6 +304,10 @@ impl BlockManager {
         std::mem::swap(&mut state.eviction_pickers, &mut pickers);
         assert!(pickers.is_empty());
 
+        // A device recovered without enough clean blocks (e.g. after a crash) must start reclaiming right away:
+        // nothing else triggers it before the first writer waits for a clean block.
+        self.reclaim_if_needed(&mut state);
+
         let metrics = &self.inner.metrics;
         metrics
             .storage_block_engine_block_clean
